@@ -93,10 +93,18 @@ def benign_one(d):
         shutil.rmtree(tmp, ignore_errors=True)
 bd = os.path.join(V, "benign")
 bdirs = [os.path.join(bd, n) for n in sorted(os.listdir(bd)) if os.path.exists(os.path.join(bd, n, "patch.diff"))] if os.path.isdir(bd) else []
+# one analysis of a variant decides all 20 properties and is cached; to keep a single thorough run bounded, a run analyses
+# the variants that are not cached yet only for its own quarter of the corpus (by property number) - the other properties'
+# runs fill in the rest, and everything cached is always reported
+def cached(d):
+    key = hashlib.sha256((TREE + open(os.path.join(d, "patch.diff")).read()).encode()).hexdigest()[:32]
+    return os.path.exists(os.path.join(CACHE, key + ".json"))
+shard = int(prop[1:]) % 4
+mine = [d for i, d in enumerate(bdirs) if cached(d) or i % 4 == shard or os.environ.get("VERIF_BENIGN_ALL")]
 with cf.ThreadPoolExecutor(max_workers=8) as ex:
-    bres = list(ex.map(benign_one, bdirs))
+    bres = list(ex.map(benign_one, mine))
 summ = {
-    "benign_variants": len(bres), "benign_silent": sum(x["status"] == "silent" for x in bres),
+    "benign_corpus": len(bdirs), "benign_variants": len(bres), "benign_silent": sum(x["status"] == "silent" for x in bres),
     "benign_alarms": [x["id"] for x in bres if x["status"] == "ALARM"], "benign_skipped": [x["id"] for x in bres if x["status"] == "skipped"],
     "mutants": len(mres), "mutants_caught": sum(x["status"] == "caught" for x in mres),
     "mutants_not_caught": [x["id"] + ":" + x["status"] for x in mres if x["status"] != "caught"],
